@@ -85,3 +85,14 @@ Theorem C05_sender_update_shape : skel_defaultSender_updateWindow =
   ["call currentWindow.Add"; "select"; "trysend windowUpdates"; "end"].
 Proof. exact defaultSender_updateWindow_shape. Qed.
 Print Assumptions C05_sender_update_shape.
+
+(* stalled streams and a bounded transport buffer cannot deadlock a tunnel: whenever a sender of
+   any stream still has something to send, some internal step of the tunnel is enabled, or that
+   stream's own receiving application sits on a full window of unread data *)
+From GT Require Import Pipe MultiPipe MultiPipeProofs.
+Theorem C05_bounded_carrier_no_deadlock : forall (A : Type) (cmax W K : nat), (0 < K)%nat ->
+  forall n ls (m : mst A) i (s : pst A), mrun cmax K (m_init A W n) ls = Some m ->
+  nth_error (m_streams m) i = Some s -> p_cur s <> None ->
+  m_internal_enabled cmax K m = true \/ bytes (p_rq s) = W.
+Proof. exact multi_no_deadlock. Qed.
+Print Assumptions C05_bounded_carrier_no_deadlock.
